@@ -51,6 +51,12 @@ func genC03(seed uint64, i int, tier string) *Scenario {
 	b := pickBatch(r)
 	sc := &Scenario{Cfg: Config{Batch: b, Cache: r.Bool(), Alias: r.Chance(0.3), Lazy: r.Chance(0.3)}}
 	sc.Init = genStoreFor(r, b, style)
+	if r.Chance(0.004) {
+		// scale: sizes around the powers of two an 8- or 10-bit counter would overflow at, large batches
+		sc.Cfg.Batch = pick(r, []int{64, 100, 255, 256, 257, 1000})
+		sc.Init = genStore(r, pick(r, []int{255, 256, 257, 300, 700, 1030, 1500}), pick(r, []string{StoreInts, StoreMixed, StoreText}))
+		sc.Family = "scale"
+	}
 	var text string
 	switch r.Intn(12) {
 	case 0:
